@@ -222,13 +222,34 @@ def check_proofs(prop, tier):
         return res
     # re-run coqc on the props file to capture Print Assumptions
     os.makedirs(BUILD + '/props', exist_ok=True)
-    r = run(['coqc', '-Q', 'theories', 'MH', '-o', BUILD + '/props/%s.vo' % prop, 'theories/props/%s.v' % prop],
-            cwd=COQ, timeout=900)
-    if r.returncode != 0:
-        res['ok'] = False
-        res['detail'] = 'coqc of the props file failed:\n' + r.stdout[-3000:]
-        res['broken'] = 'theories/props/%s.v' % prop
-        return res
+    # the output of this coqc run is a function of the sources: reuse it while no .v file (nor the Coq version) changed
+    dig = hashlib.sha256()
+    for f in sorted(glob.glob(COQ + '/theories/**/*.v', recursive=True)) + [COQ + '/_CoqProject']:
+        dig.update(f.encode() + b'\0' + open(f, 'rb').read())
+    dig.update(subprocess.run(['coqc', '--version'], stdout=subprocess.PIPE).stdout)
+    cache = BUILD + '/props/%s.assumptions' % prop
+    cached = None
+    if os.path.exists(cache):
+        try:
+            cj = json.load(open(cache))
+            if cj.get('digest') == dig.hexdigest():
+                cached = cj['stdout']
+        except Exception:
+            cached = None
+    if cached is None:
+        r = run(['coqc', '-Q', 'theories', 'MH', '-o', BUILD + '/props/%s.vo' % prop, 'theories/props/%s.v' % prop],
+                cwd=COQ, timeout=900)
+        if r.returncode != 0:
+            res['ok'] = False
+            res['detail'] = 'coqc of the props file failed:\n' + r.stdout[-3000:]
+            res['broken'] = 'theories/props/%s.v' % prop
+            return res
+        json.dump(dict(digest=dig.hexdigest(), stdout=r.stdout), open(cache, 'w'))
+    else:
+        class _R:
+            pass
+        r = _R()
+        r.stdout = cached
     src = open('%s/theories/props/%s.v' % (COQ, prop)).read()
     thms = re.findall(r'^Theorem (\w+)', src, re.M)
     closed = r.stdout.count('Closed under the global context')
